@@ -330,18 +330,8 @@ func init() {
 		pre := e.cur
 		e.havocAll()
 		e.restoreFrame(fr, pre, args)
-		if len(args) >= 3 && args[2] != nil && args[2].K == KIface && args[2].Dyn != nil {
-			if pt, ok := args[2].Dyn.Underlying().(*types.Pointer); ok {
-				if st, ok := pt.Elem().Underlying().(*types.Struct); ok {
-					for i := 0; i < st.NumFields(); i++ {
-						if st.Field(i).Name() != "Req" {
-							continue
-						}
-						a := e.fieldAddr(args[2].T, pt.Elem(), i)
-						e.store(e.cur, a, e.load(pre, a))
-					}
-				}
-			}
+		if len(args) >= 3 {
+			e.restoreRequest(pre, args[2])
 		}
 		return e.freshResult("ret.Session.SendCommand", resT)
 	}
@@ -514,6 +504,28 @@ func init() {
 	nativeModels["(prometheus.Histogram).Observe"] = nativeModels["(prometheus.Observer).Observe"]
 	nativeModels["(context.Context).Err"] = func(e *Encoder, fr *frame, args []*SVal, ci ssa.CallInstruction, resT types.Type) *SVal {
 		return e.freshVal("ctxerr", resT)
+	}
+}
+
+// restoreRequest: the request half (field Req) of a command of known dynamic type keeps its value.
+func (e *Encoder) restoreRequest(pre *State, cmd *SVal) {
+	if cmd == nil || cmd.K != KIface || cmd.Dyn == nil {
+		return
+	}
+	pt, ok := cmd.Dyn.Underlying().(*types.Pointer)
+	if !ok {
+		return
+	}
+	st, ok := pt.Elem().Underlying().(*types.Struct)
+	if !ok {
+		return
+	}
+	for i := 0; i < st.NumFields(); i++ {
+		if st.Field(i).Name() != "Req" {
+			continue
+		}
+		a := e.fieldAddr(cmd.T, pt.Elem(), i)
+		e.store(e.cur, a, e.load(pre, a))
 	}
 }
 
